@@ -855,10 +855,6 @@ func (p *PHYPayload) calculateDownlinkDataMIC(macVersion MACVersion, confFCnt ui
 // Note that EncryptFRMPayload is used for both encryption and decryption.
 func EncryptFRMPayload(key AES128Key, uplink bool, devAddr DevAddr, fCnt uint32, data []byte) ([]byte, error) {
 	pLen := len(data)
-	if pLen%16 != 0 {
-		// append with empty bytes so that len(data) is a multiple of 16
-		data = append(data, make([]byte, 16-(pLen%16))...)
-	}
 
 	block, err := aes.NewCipher(key[:])
 	if err != nil {
@@ -882,11 +878,14 @@ func EncryptFRMPayload(key AES128Key, uplink bool, devAddr DevAddr, fCnt uint32,
 	copy(a[6:10], b)
 	binary.LittleEndian.PutUint32(a[10:14], uint32(fCnt))
 
-	for i := 0; i < len(data)/16; i++ {
+	// the last block may be partial: only the pLen bytes of data are touched
+	// (data is not padded with append, which would write into spare capacity
+	// of the caller's slice)
+	for i := 0; i < (pLen+15)/16; i++ {
 		a[15] = byte(i + 1)
 		block.Encrypt(s, a)
 
-		for j := 0; j < len(s); j++ {
+		for j := 0; j < len(s) && i*16+j < pLen; j++ {
 			data[i*16+j] = data[i*16+j] ^ s[j]
 		}
 	}
